@@ -218,7 +218,7 @@ def c08_twin(a, col, budget):
         prog += 1
         nsteps = int(rng.integers(4, 11))
         try:
-            decl, steps, A = gen_program(rng, "levels", a.tier, {"approx_ops": False, "near_basis": True, "lifecycle": 0.3, "weights": {"config": 0}}, True, nsteps)
+            decl, steps, A = gen_program(rng, "levels", a.tier, {"approx_ops": False, "near_basis": True, "lifecycle": 0.3, "weights": {"config": 0, "resize": 2.5}}, True, nsteps)
         except Exception as e:  # noqa: BLE001
             col.incon["harness-gen-error"] = col.incon.get("harness-gen-error", 0) + 1
             col.extra.setdefault("harness_errors", []).append(f"{type(e).__name__}: {e}"[:200])
@@ -272,7 +272,7 @@ def c15_driver(a, col):
         rng = np.random.default_rng([a.seed, pidx, a.shard, prog])
         prog += 1
         nsteps = int(rng.integers(5, 12))
-        opts = {"approx_ops": False, "op_reuse": 0.45, "reuse_custom": True, "refuse_reuse": 0.3, "refuse_first": 0.15, "ladder_expr": 0.4, "weights": {"config": 0, "measure": 0.3, "povm": 0.2, "kraus": 0.5, "apply1": 8, "applyc": 6,
+        opts = {"approx_ops": False, "op_reuse": 0.45, "reuse_custom": True, "refuse_reuse": 0.3, "refuse_first": 0.15, "ladder_expr": 0.4, "big_small": 0.12, "weights": {"config": 0, "measure": 0.3, "povm": 0.2, "kraus": 0.5, "apply1": 8, "applyc": 6,
                                                    "resize": 1.0, "combine": 1.0}}
         try:
             decl, steps, A = gen_program(rng, "ops", a.tier, opts, bool(rng.random() < 0.5), nsteps, op_reuse=True)
